@@ -24,7 +24,8 @@ import (
 type Scenario struct {
 	Kind       string `json:"kind"` // faults | api
 	BufferSize int    `json:"buffer_size"`
-	Log        string `json:"log,omitempty"` // trace | debug: the relay's log level (output discarded); behaviour must not depend on it
+	StatsEvery int    `json:"stats_every,omitempty"` // seconds between the relay's periodic stats reports (0 = 1)
+	Log        string `json:"log,omitempty"`         // trace | debug: the relay's log level (output discarded); behaviour must not depend on it
 	Steps      []Step `json:"steps"`
 }
 
@@ -82,8 +83,11 @@ func (s *Scenario) Budget() int {
 			b += 12
 		}
 		b += st.Dt
-		if st.K == "population" {
+		if st.K == "population" || st.K == "refused-handshakes" {
 			b += 60
+		}
+		if st.K == "stats-ask-and-leave" || st.K == "stall-flood-crowd" || st.K == "stall-flood-hold" {
+			b += 20
 		}
 	}
 	return b
@@ -95,7 +99,7 @@ var bookingNames = []string{"", "c08-bk-A", "c08-bk-B", "c08-bk-C"}
 var faultKinds = []string{"oversize", "reserved-opcode", "unmasked", "big-control", "truncated", "rst", "half-close", "stall-flood", "idle-stall",
 	"status-churn-flood", "junk-dials-during-sessions", "stall-flood-deny", "stall-flood-expiry",
 	"pong-unsolicited", "ping-odd", "close-odd", "fragments",
-	"oversize-deflate", "truncated-readonly", "half-open-crowd"}
+	"oversize-deflate", "truncated-readonly", "half-open-crowd", "stats-ask-and-leave", "stall-flood-crowd"}
 
 func genFaults(r *lib.Rng, i int) *Scenario {
 	sc := &Scenario{Kind: "faults", BufferSize: r.Range(1, 2), Log: []string{"", "trace", "", "debug"}[i%4]}
@@ -124,6 +128,18 @@ func genFaults(r *lib.Rng, i int) *Scenario {
 		}
 		if st.K == "close-odd" {
 			st.Msgs = r.Intn(5)
+		}
+		if st.K == "stats-ask-and-leave" || st.K == "stall-flood-crowd" {
+			if heavy[st.K] {
+				st.K = "rst"
+			}
+			heavy[kind] = true
+		}
+		if st.K == "stats-ask-and-leave" {
+			sc.StatsEvery = 5 // like the shipped default: the periodic report is rarely due when somebody asks
+		}
+		if st.K == "stall-flood-crowd" {
+			st.Msgs, st.Size, st.N = r.Range(22, 26), 1<<20, uint64(r.Range(17, 20)) // more stalled readers than a small fixed table holds
 		}
 		if st.K == "stall-flood-deny" || st.K == "stall-flood-expiry" {
 			// the relay's writer for the stalled reader must be blocked in the middle of a write while the
@@ -437,7 +453,7 @@ func (c *child) settled(prefix string) ([]uint64, error) {
 
 // canary: two fresh connections on a fresh topic must exchange a message within 2 s
 func (c *child) canary(i int) (string, []Ev) {
-	topic := fmt.Sprintf("canary%d", i)
+	topic := fmt.Sprintf("canary%d", i%2)
 	a, err := c.open(topic, "c08-canary-bk", "c08-canary")
 	if err != nil {
 		return "canary sender could not connect: " + err.Error(), nil
@@ -449,7 +465,7 @@ func (c *child) canary(i int) (string, []Ev) {
 	defer a.Close()
 	defer b.Close()
 	na, nb := c.fresh(), c.fresh()
-	t := 5000 + uint64(i)
+	t := 5000 + uint64(i%2)
 	evs := []Ev{{E: "WsAdd", A: 50, N: na}, {E: "Register", N: na, A: t, Cap: c.sc.BufferSize},
 		{E: "WsAdd", A: 50, N: nb}, {E: "Register", N: nb, A: t, Cap: c.sc.BufferSize},
 		{E: "Broadcast", N: na, A: 1}, {E: "Drain", N: nb, Cap: 1}, {E: "Unregister", N: na}, {E: "Unregister", N: nb}}
@@ -538,7 +554,7 @@ func childScenario(inPath, outPath string) {
 		fmt.Fprintln(os.Stderr, err)
 		os.Exit(4)
 	}
-	rl := lib.StartRelay(lib.RelayOpts{BufferSize: int64(sc.BufferSize), PruneEvery: 10 * time.Minute})
+	rl := lib.StartRelay(lib.RelayOpts{BufferSize: int64(sc.BufferSize), PruneEvery: 10 * time.Minute, StatsEvery: time.Duration(sc.StatsEvery) * time.Second})
 	switch sc.Log {
 	case "trace":
 		log.SetLevel(log.TraceLevel)
@@ -650,10 +666,15 @@ func (c *child) runFaults() {
 	c.next = 2
 	for i, st := range c.sc.Steps {
 		so := StepObs{Step: i, K: st.K, Live: []uint64{}}
-		if st.K == "status-churn-flood" || st.K == "junk-dials-during-sessions" || st.K == "population" || st.K == "half-open-crowd" {
+		if st.K == "status-churn-flood" || st.K == "junk-dials-during-sessions" || st.K == "population" || st.K == "half-open-crowd" ||
+			st.K == "refused-handshakes" || st.K == "stats-ask-and-leave" {
 			switch st.K {
 			case "half-open-crowd":
 				so.Note = c.halfOpenCrowd()
+			case "refused-handshakes":
+				so.Note = c.refusedHandshakes(st.Msgs)
+			case "stats-ask-and-leave":
+				so.Note = c.statsAskAndLeave(i)
 			case "status-churn-flood":
 				so.Note = c.statusChurnFlood(i)
 			case "junk-dials-during-sessions":
@@ -843,9 +864,26 @@ func (c *child) runFaults() {
 			tcp.Close()
 			c.evs = append(c.evs, Ev{E: "Unregister", N: n})
 			time.Sleep(150 * time.Millisecond)
-		case "stall-flood":
+		case "stall-flood", "stall-flood-crowd", "stall-flood-hold":
 			tcp.SetReadBuffer(4096) // and never read: the relay's writer for this connection blocks once the kernel buffers are full
 			gone = false
+			var crowd []*net.TCPConn
+			var crowdNames []uint64
+			if st.K == "stall-flood-crowd" {
+				// many readers stall together, so that they all overflow on the same message
+				for k := 0; k < int(st.N); k++ {
+					name := uint64(30000 + 100*i + k)
+					x, err := c.open(topic, fmt.Sprintf("c08-bk-F%d-%d", i, k), fmt.Sprintf("c08-conn-%d", name))
+					if err != nil {
+						continue
+					}
+					xt, _ := x.UnderlyingConn().(*net.TCPConn)
+					xt.SetReadBuffer(4096)
+					crowd = append(crowd, xt)
+					crowdNames = append(crowdNames, name)
+					c.evs = append(c.evs, Ev{E: "WsAdd", A: uint64(10 + i), N: name}, Ev{E: "Register", N: name, A: 1, Cap: cp})
+				}
+			}
 			for k := 0; k < st.Msgs; k++ {
 				if err := relay(st.Size); err != nil {
 					so.Pair = err.Error()
@@ -865,6 +903,21 @@ func (c *child) runFaults() {
 					so.Note = "flooded-reader-evicted"
 				}
 			}
+			if st.K == "stall-flood-hold" {
+				// the stalled client stays for longer than the relay's write deadline (10 s): the relay has to
+				// get rid of it on its own
+				time.Sleep(11500 * time.Millisecond)
+				so.Note = "held-reader-still-listed"
+				if l, err := c.listed("c08-conn-"); err == nil {
+					found := false
+					for _, x := range l {
+						found = found || x == n
+					}
+					if !found {
+						so.Note = "held-reader-gone-after-write-deadline"
+					}
+				}
+			}
 			// a client that has been dropped as slow may still write
 			f.SetWriteDeadline(time.Now().Add(time.Second))
 			if f.WriteMessage(websocket.TextMessage, []byte("late-message")) == nil {
@@ -875,6 +928,11 @@ func (c *child) runFaults() {
 			tcp.SetLinger(0)
 			tcp.Close()
 			c.evs = append(c.evs, Ev{E: "Unregister", N: n})
+			for k, x := range crowd {
+				x.SetLinger(0)
+				x.Close()
+				c.evs = append(c.evs, Ev{E: "Unregister", N: crowdNames[k]})
+			}
 			time.Sleep(150 * time.Millisecond)
 		}
 		if gone {
@@ -1143,6 +1201,65 @@ func (c *child) halfOpenCrowd() string {
 		opened++
 	}
 	return fmt.Sprintf("half-open-crowd:%d", bucket(opened))
+}
+
+// refusedHandshakes: thousands of websocket handshakes that the relay refuses after the upgrade (no code, a
+// code nobody issued, a stale code), one after the other over the life of the process, each client gone
+// at once. Whatever the relay keeps per refused handshake must not add up to anything.
+func (c *child) refusedHandshakes(total int) string {
+	var wg sync.WaitGroup
+	var done int32
+	for g := 0; g < 32; g++ {
+		wg.Add(1)
+		go func(g int) {
+			defer wg.Done()
+			d := websocket.Dialer{HandshakeTimeout: 2 * time.Second}
+			for {
+				k := int(atomic.AddInt32(&done, 1))
+				if k > total {
+					return
+				}
+				u := c.rl.Target + "/session/c08topic"
+				switch k % 3 {
+				case 1:
+					u += fmt.Sprintf("?code=nobody-%d", k)
+				case 2:
+					u += "?code=00000000-0000-4000-8000-000000000000"
+				}
+				if conn, _, err := d.Dial(u, nil); err == nil {
+					conn.Close()
+				}
+			}
+		}(g)
+	}
+	wg.Wait()
+	return fmt.Sprintf("refused-handshakes:%d", bucket(total))
+}
+
+// statsAskAndLeave: a viewer of the relay's own statistics topic asks for an update, gets it, asks again and is
+// gone before the answer can come (a page that is reloaded or closed)
+func (c *child) statsAskAndLeave(i int) string {
+	note := "stats-viewer:answered"
+	for round := 0; round < 2; round++ {
+		name := uint64(40000 + 10*i + round)
+		v, err := c.open("stats", "c08-bk-stats", "c08-stats-viewer")
+		if err != nil {
+			return "stats-viewer:not-connected"
+		}
+		c.evs = append(c.evs, Ev{E: "WsAdd", A: 80, N: name}, Ev{E: "Register", N: name, A: 9000, Cap: c.sc.BufferSize})
+		v.SetWriteDeadline(time.Now().Add(time.Second))
+		v.WriteMessage(websocket.TextMessage, []byte(`{"cmd":"update"}`))
+		c.evs = append(c.evs, Ev{E: "Broadcast", N: name, A: 8})
+		if _, _, err := lib.ReadOne(v, 3*time.Second); err != nil {
+			note = "stats-viewer:no-answer"
+		}
+		v.SetWriteDeadline(time.Now().Add(time.Second))
+		v.WriteMessage(websocket.TextMessage, []byte(`{"cmd":"update"}`))
+		v.Close()
+		c.evs = append(c.evs, Ev{E: "Broadcast", N: name, A: 8}, Ev{E: "Unregister", N: name})
+		time.Sleep(1300 * time.Millisecond) // the reporter's round
+	}
+	return note
 }
 
 func bucket(n int) int {
